@@ -128,3 +128,21 @@ def multi_source_shapes():
         if k in ("mux2", "mux-below-regs", "mux-shared-src-load"):
             c[k] = v
     return c
+
+
+def pair_cover(pol="pos", src_only=None):
+    """Thorough tier: one chain per (parent kind, child kind) pair, Source -> P -> C [-> ILoad]; 80 shapes of 2..4 nodes."""
+    c = {}
+    kinds = INNER + LEAF
+    for ch in kinds:
+        nodes = [N("S", "Source", pol=pol, **({"only": src_only} if src_only is not None else {})), N("X", ch, "S")]
+        if ch in INNER:
+            nodes.append(N("L", "ILoad", "X"))
+        c["S>%s" % ch] = S(*nodes)
+    for p in INNER:
+        for ch in kinds:
+            nodes = [N("S", "Source", pol=pol, **({"only": src_only} if src_only is not None else {})), N("P", p, "S"), N("X", ch, "P")]
+            if ch in INNER:
+                nodes.append(N("L", "PLoad" if ch != "RLoss" else "RLoad", "X"))
+            c["S>%s>%s" % (p, ch)] = S(*nodes)
+    return c
